@@ -126,13 +126,9 @@ func regexify(name string) (*regexp.Regexp, error) {
 	if name == "" {
 		name = "(?i).*"
 	}
-	// Anchor if required.
-	if !strings.HasPrefix(name, "^") {
-		name = fmt.Sprintf("^%s", name)
-	}
-	if !strings.HasSuffix(name, "$") {
-		name = fmt.Sprintf("%s$", name)
-	}
+	// Anchor the expression as a whole; the group ensures that a top-level
+	// alternation such as "a|b" is anchored at both ends rather than as "^a" or "b$".
+	name = fmt.Sprintf("^(?:%s)$", name)
 	// Case insensitivity if required.
 	if !strings.HasPrefix(name, "(?i)") {
 		name = fmt.Sprintf("(?i)%s", name)
